@@ -262,3 +262,15 @@ reg(Check("C10", "model_checking",
                  Part("p2p", SRV, "^TestVerifC10P2P$", instr=True, gomaxprocs=16, deadline=(300, 2400)),
                  Part("races", SRV, "^TestVerifC10Races$", instr=True, shards=(16, 16), deadline=(300, 3000)),
                  Part("presraces", SRV, "^TestVerifC10PresRaces$", instr=True, shards=(16, 16), deadline=(300, 3000))]))
+
+reg(Check("C15", "model_checking",
+          "BFS over 5 invitations (caller's two sessions, callee, outsider, group), 24 call events (ringing/accept/offer/answer/candidate/hang-up from "
+          "each of 4 party sessions, wrong ids, bogus, outsider), leave/re-attach of party and non-party sessions, establishment timeout and ordinary "
+          "traffic on one p2p topic with 4 attached sessions, depth 3 quick / 5 thorough, plus the same alphabet with calling unconfigured; oracle: "
+          "3-state call machine predicting reply codes, which sessions receive which {info call}, the accepted/terminal replacement messages in the store, "
+          "and the topic's call slot (white box)",
+          ["canonical schedule", "cluster proxy sessions not covered"],
+          text=XS_NOTE, note="trusted: memdb, instrumenter/scheduler", technique="explicit-state model checking over the real handlers against a reference state machine",
+          engine="E2 xstate", claimed=True,
+          parts=[Part("call", SRV, "^TestVerifC15Call$", instr=True, gomaxprocs=16, deadline=(300, 2400)),
+                 Part("call-off", SRV, "^TestVerifC15CallOff$", instr=True, gomaxprocs=16, deadline=(120, 600))]))
